@@ -64,11 +64,13 @@ struct bitset {
         TETL_PRECONDITION(len >= 0);
         TETL_PRECONDITION(len <= size());
 
+        // the last of the len characters corresponds to bit 0 [bitset.cons]
         for (decltype(pos) i = 0; i < len; ++i) {
-            if (Traits::eq(str[i + pos], one)) {
+            auto const ch = str[pos + len - 1 - i];
+            if (Traits::eq(ch, one)) {
                 set(i, true);
             }
-            if (Traits::eq(str[i + pos], zero)) {
+            if (Traits::eq(ch, zero)) {
                 set(i, false);
             }
         }
